@@ -1,10 +1,10 @@
 \* EXPECTED TO BE REJECTED: the source as found consumes the caller's phase descriptions (phase_type popped, member lists stored)
 SPECIFICATION Spec
 CONSTANTS
-  MaxPhases = 3
-  SpCounts <- Sp3
-  MaxRx = 2
-  MaxIa = 1
+  MaxPhases = 2
+  SpCounts <- Sp2
+  MaxRx = 1
+  MaxIa = 0
   MaxCalls = 3
   Variant = "pinned"
   Scope = "narrow"
